@@ -4,9 +4,9 @@ import (
 	"fmt"
 	"go/ast"
 	"go/constant"
-	"math/big"
 	"go/token"
 	"go/types"
+	"math/big"
 	"strings"
 
 	"golang.org/x/tools/go/ssa"
@@ -480,7 +480,15 @@ func (fv *FuncVC) bindLoopAliases(env *Env, li *loopInfo, phiVal func(*ssa.Phi) 
 		if alias == "_" {
 			continue
 		}
-		env.vars[alias] = TV{phiVal(carried[i]), carried[i].Type()}
+		// by source variable name where a phi carries that name (robust against reordering), else by position
+		chosen := carried[i]
+		for _, phi := range carried {
+			if phi.Comment == alias {
+				chosen = phi
+				break
+			}
+		}
+		env.vars[alias] = TV{phiVal(chosen), chosen.Type()}
 	}
 }
 
@@ -552,7 +560,8 @@ func (fv *FuncVC) processBlock(b *ssa.BasicBlock) {
 			// havoc what the loop may change
 			fv.epochN++
 			hs := &State{kind: sHavoc, h: map[string]Term{}, parent: st, havocAll: li.havocAll, havoc: li.havoc,
-				site: fmt.Sprintf("L%d", li.ord), guard: in, bound: fv.alloc0, exclude: fv.mods, fv: fv, blk: b.Index}
+				site: fmt.Sprintf("L%d", li.ord), guard: in, bound: fv.alloc0, exclude: fv.mods, fv: fv, blk: b.Index,
+				freshBound: st.get("alloc"), oldWrites: li.oldWrites}
 			hs.havoc["alloc"] = true
 			st = hs.clone()
 			li.state = st
@@ -838,6 +847,13 @@ func (fv *FuncVC) unop(x *ssa.UnOp) {
 		}
 		fv.defReg(x, fv.readAddr(a, fv.st))
 		fv.assume(fv.wfVal(fv.val(x), x.Type(), fv.curAlloc(), 0))
+		// the heap at entry is closed: what is stored in memory allocated before the call refers only to memory
+		// allocated before the call (reads from a heap that still is the entry version)
+		if a.heap != "" && strings.HasSuffix(string(fv.heapGet(fv.st, a.heap)), "@0") {
+			if f := fv.wfVal(fv.val(x), x.Type(), fv.alloc0, 0); f != "true" {
+				fv.assume(implies(app("<", a.id, fv.alloc0), f))
+			}
+		}
 	case token.NOT:
 		fv.defReg(x, not(fv.val(x.X)))
 	case token.SUB:
